@@ -16,3 +16,4 @@ import WmModel.Props.C10SelfClose
 #print axioms Wm.RouterLife.other_handlers_keep_dispatching
 #print axioms Wm.RouterLife.loop_tail_waits_for_nobody
 #print axioms Wm.RouterLife.failed_run_leaves_running_open
+#print axioms Wm.RouterLife.close_signals_only_outside_runhandlers
